@@ -73,6 +73,34 @@ func runSharedSock(t *tape.Tape, cfg sim.Config) (res sim.Result) {
 		return c
 	}
 	sctx := sock.WithConfig(ctx, sock.NewConfig().WithTCPListener(host, 0))
+	if t.Chance(1, 3) {
+		// a FIXED port (found free a moment ago): an instantiation with this configuration that fails for a
+		// reason of its own (an argument containing NUL) is followed by a proper one, which must find the
+		// address free: the failed attempt is not an instance and holds nothing
+		l, err := net.Listen("tcp", host+":0")
+		if err != nil {
+			panic(err)
+		}
+		port := l.Addr().(*net.TCPAddr).Port
+		l.Close()
+		fctx := sock.WithConfig(ctx, sock.NewConfig().WithTCPListener(host, port))
+		_, ferr := rt.InstantiateModule(fctx, cm, wazero.NewModuleConfig().WithName("").WithStartFunctions().WithArgs("a\x00b"))
+		if ferr == nil {
+			panic("harness: an argument containing NUL was accepted")
+		}
+		res.Stat("fault.instantiation_failing_after_the_listeners_were_bound", 1)
+		if c := listeningExpect(0); c > 0 {
+			res.Fail("instance-interference", "an instantiation with a socket configuration (%s:%d) failed (%v): %d listening socket(s) of that attempt are still there", host, port, first(ferr), c)
+			return
+		}
+		mod, err := rt.InstantiateModule(fctx, cm, wazero.NewModuleConfig().WithName("").WithStartFunctions())
+		if err != nil {
+			res.Fail("instance-interference", "after an instantiation with the socket configuration %s:%d failed (%v), a proper instantiation with the same configuration fails: %v", host, port, first(ferr), first(err))
+			return
+		}
+		mod.Close(ctx)
+		res.Logf("failed instantiation with a fixed-port socket configuration, then a proper one")
+	}
 	n := t.Range(2, 3)
 	gs := make([]*wasiguest.Guest, n)
 	for i := range gs {
